@@ -117,6 +117,8 @@ func c04Pool() []interface{} {
 		int64(1) << 53, int64(1)<<53 + 1, int64(math.MaxInt64), int64(math.MinInt64), int64(300),
 		0.5, 3.0, -2.5, 1e39, 1e300, -1e300, 5e-324, 3.4028234663852886e38, 3.5e38, 0.1, 16777217.0, 1e10,
 		"abc", "3", "", "A", "2006-01-02T15:04:05Z", "not a time", "true",
+		// integers as text (what Int64 takes from clients that have no 64 bit numbers): decimal, whatever the padding
+		"0755", "000010", "-0012", "089", "9007199254740993", "0x1F", "1_000", "0b11", "12abc", " 7", "9223372036854775808",
 		model.Sym("A"), model.Sym("C"), model.Sym("Z"),
 		[]interface{}{}, []interface{}{int64(1), int64(2)}, []interface{}{int64(1), nil}, []interface{}{"x"}, []interface{}{[]interface{}{int64(1)}, []interface{}{}},
 		[]interface{}{model.Sym("A"), model.Sym("Z")}, []interface{}{[]interface{}{int64(4294967297)}}, []interface{}{nil}, []interface{}{[]interface{}{nil}},
